@@ -20,14 +20,46 @@ type Timer struct {
 	c    chan time.Time
 	mu   sync.Mutex
 	gen  int
-	live bool
-	f    func()
+	live   bool
+	f      func()
+	cancel chan struct{}
 }
 
 func (t *Timer) arm(d time.Duration) {
 	t.gen++
 	gen := t.gen
 	t.live = true
+	if t.f != nil {
+		// A timer FUNCTION runs user code, so it must be a gated goroutine like any
+		// other (an un-gated one blocking on a real mutex held by a parked goroutine
+		// would stall the whole bubble).  The goroutine is created now, by the caller,
+		// sleeps on the bubble clock and can be cancelled by Stop/Reset.
+		cancel := make(chan struct{})
+		t.cancel = cancel
+		f := t.f
+		Go("timer func", func() {
+			tm := time.NewTimer(d)
+			markPendingTimer(true)
+			select {
+			case <-tm.C:
+			case <-cancel:
+				tm.Stop()
+				return
+			}
+			markPendingTimer(false)
+			Yield("timer fired")
+			t.mu.Lock()
+			ok := t.gen == gen && t.live
+			if ok {
+				t.live = false
+			}
+			t.mu.Unlock()
+			if ok {
+				f()
+			}
+		})
+		return
+	}
 	go func() {
 		if d > 0 {
 			time.Sleep(d)
@@ -38,17 +70,19 @@ func (t *Timer) arm(d time.Duration) {
 			return
 		}
 		t.live = false
-		f := t.f
 		t.mu.Unlock()
-		if f != nil {
-			Go("timer func", f)
-			return
-		}
 		select {
 		case t.c <- time.Now():
 		default:
 		}
 	}()
+}
+
+func (t *Timer) disarm() {
+	if t.cancel != nil {
+		close(t.cancel)
+		t.cancel = nil
+	}
 }
 
 func NewTimer(d time.Duration) *Timer {
@@ -78,6 +112,7 @@ func (t *Timer) Stop() bool {
 	was := t.live
 	t.live = false
 	t.gen++
+	t.disarm()
 	return was
 }
 
@@ -87,6 +122,7 @@ func (t *Timer) Reset(d time.Duration) bool {
 	t.mu.Lock()
 	defer t.mu.Unlock()
 	was := t.live
+	t.disarm()
 	t.arm(d)
 	return was
 }
